@@ -863,6 +863,9 @@ func (st *Stack) AutoCompact() error {
 
 // CompactAll compacts the entire stack. If expiration is given, expire log entries.
 func (st *Stack) CompactAll(expiration *LogExpirationConfig) error {
+	if len(st.stack) == 0 {
+		return nil
+	}
 	_, err := st.compactRange(0, len(st.stack)-1, expiration)
 	return err
 }
